@@ -7,6 +7,7 @@ package media
 import (
 	"errors"
 	"strings"
+	"sync"
 	"sync/atomic"
 	"time"
 
@@ -51,6 +52,8 @@ type Stream struct {
 	consumerSequenceSeed uint32
 	consumptions         consumptions // 消费者列表
 	cache                packCache    // 媒体包缓存
+	joinLock             sync.Mutex   // makes cache-then-broadcast atomic with respect to a join's snapshot-then-register
+	flvJoinLock          sync.Mutex   // the same for flv tags
 	rtpDemuxer           rtpDemuxer
 	flvMuxer             flvMuxer
 	flvConsumptions      consumptions
@@ -208,9 +211,11 @@ func (s *Stream) WriteRtpPacket(packet *rtp.Packet) error {
 
 	atomic.AddUint64(&s.size, uint64(packet.Size()))
 
+	s.joinLock.Lock()
 	keyframe := s.cache.CachePack(packet)
 	verifPoint("publish.cached", s)
 	s.consumptions.SendToAll(packet, keyframe)
+	s.joinLock.Unlock()
 
 	s.rtpDemuxer.WriteRtpPacket(packet)
 	return nil
@@ -236,9 +241,11 @@ func (s *Stream) WriteFlvTag(tag *flv.Tag) error {
 		return statusErrors[status]
 	}
 
+	s.flvJoinLock.Lock()
 	keyframe := s.flvCache.CachePack(tag)
 	verifPoint("flvpublish.cached", s)
 	s.flvConsumptions.SendToAll(tag, keyframe)
+	s.flvJoinLock.Unlock()
 	return nil
 }
 
@@ -276,17 +283,24 @@ func (s *Stream) startConsume(consumer Consumer, packetType PacketType, extra st
 
 	cs := &s.consumptions
 	cache := s.cache
+	joinLock := &s.joinLock
 	if packetType == FLVPacket {
 		cs = &s.flvConsumptions
 		cache = s.flvCache
+		joinLock = &s.flvJoinLock
 	}
 
+	// snapshot the cache and register under the lock the publisher holds while it
+	// caches and broadcasts: a packet published meanwhile is neither lost to the
+	// new consumer nor delivered to it twice
+	joinLock.Lock()
 	if useGopCache {
 		c.sendGop(cache) // 新消费者，先发送gop缓存
 	}
 	verifPoint("join.snapshotted", c)
 	cs.Add(c)
 	verifPoint("join.registered", c)
+	joinLock.Unlock()
 
 	go c.consume()
 	return c.cid
